@@ -946,6 +946,18 @@ def a12_inplace_identity(ctx: Any, mt: Any) -> None:
                     else:
                         ctx.shape('C04.A12', False, mt, r, f'{cls}.{mname}: method {v.func.attr}() not found', func=f'{cls}.{mname}', text=f'{cls}.{mname} returns self')
                         continue
+                elif not ok and isinstance(v, ast.Call) and isinstance(v.func, ast.Attribute) and isinstance(v.func.value, ast.Name) and v.func.value.id == me:
+                    # `return self._helper(other)`: fine when that method of the class hands back its own `self` on every path
+                    hm = mt.methods(cls).get(v.func.attr)
+                    for b_ in ('VecBase', 'MatrixBase', 'AngleBase'):
+                        if hm is None and cls + 'Base' == b_:
+                            hm = mt.methods(b_).get(v.func.attr)
+                    if hm is None:
+                        ctx.shape('C04.A12', False, mt, r, f'{cls}.{mname}: method {v.func.attr}() not found', func=f'{cls}.{mname}', text=f'{cls}.{mname} returns self')
+                        continue
+                    hme = hm.args.args[0].arg
+                    ok = all(isinstance(x.value, ast.Name) and x.value.id == hme for x in walk_no_nested(hm) if isinstance(x, ast.Return) and x.value is not None) and any(isinstance(x, ast.Return) and x.value is not None for x in walk_no_nested(hm))
+                    why = f'`{U(v)[:60]}`, and {v.func.attr}() ' + ('returns its own self' if ok else 'does not return its own self on every path')
                 elif not ok and not isinstance(v, (ast.Name, ast.Call)):
                     ctx.shape('C04.A12', False, mt, r, f'{cls}.{mname} returns `{U(v)[:50]}`', func=f'{cls}.{mname}', text=f'{cls}.{mname} returns self')
                     continue
